@@ -8,6 +8,8 @@ HG = "harness/C03/h_glue.c"
 HB = "harness/C03/h_ec_base.c"
 ISAS = ["sse", "avx", "avx2", "avx512", "avx512_gfni", "avx2_gfni"]
 MINLEN = [16, 16, 32, 64, 0, 0]
+# XOR-sum miters over GF(2^8): cadical decides ec_encode_data_base 4x3x3 in 3.5 s, minisat needs 122 s (measured)
+CADICAL = ["--sat-solver", "cadical"]
 
 
 def glue_queries(tier, update):
@@ -51,30 +53,30 @@ def base_queries(tier):
     # anchor with the REAL table-driven gf_mul (ec_base.c linked unmodified): one product per output byte
     qs.append(Query("base/dot/real_leaf/len1_k1", R,
                     dict(harness=HB, units=["erasure_code/ec_base.c"], hdefines=["H_DOT", "REAL_LEAF", "LEN=1", "KK=1"], unwind=33,
-                         witness=True), core=True, family="base/dot", weight=10))
+                         witness=True, flags=CADICAL), core=True, family="base/dot", weight=10))
     qs.append(Query("base/enc/real_leaf/len1_k1_r2", R,
                     dict(harness=HB, units=["erasure_code/ec_base.c"], hdefines=["H_ENC", "REAL_LEAF", "LEN=1", "KK=1", "ROWS=2"], unwind=65,
-                         witness=True), core=False, family="base/enc", weight=15))
+                         witness=True, flags=CADICAL), core=False, family="base/enc", weight=15))
     # gf_mul abstracted to spec_gf_mul (lemma C12:H_MUL), ec_base.c otherwise the real text
-    dots = [(0, 1), (1, 1), (2, 2), (4, 3)] if quick else [(l, k) for l in range(0, 5) for k in range(1, 4)]
+    dots = [(0, 1), (1, 1), (2, 2), (4, 3)] if quick else [(l, k) for l in range(0, 5) for k in range(1, 4)] + [(8, 4), (16, 2)]
     for (l, k) in dots:
         qs.append(Query("base/dot/len%d_k%d" % (l, k), R,
-                        dict(harness=HB, units=[], hdefines=["H_DOT", "LEN=%d" % l, "KK=%d" % k], unwind=max(33, 32 * k + 1),
-                             witness=(l > 0)), core=(l, k) == (2, 2), family="base/dot", weight=5 + 3 * l * k))
-    encs = [(0, 2, 2), (1, 1, 1), (2, 2, 3), (3, 3, 2)] if quick else \
-        [(l, k, r) for l in (0, 1, 2, 4) for k in (1, 2, 3) for r in (1, 2, 3) if l * k * r <= 18] + [(4, 3, 3)]
+                        dict(harness=HB, units=[], hdefines=["H_DOT", "LEN=%d" % l, "KK=%d" % k], unwind=max(33, 32 * k + 1, l + 2),
+                             witness=(l > 0), flags=CADICAL), core=(l, k) in ((2, 2), (4, 3)), family="base/dot", weight=2 + l * k))
+    encs = [(0, 2, 2), (1, 1, 1), (2, 2, 3), (3, 3, 2), (4, 3, 3)] if quick else \
+        [(l, k, r) for l in (0, 1, 2, 3, 4) for k in (1, 2, 3) for r in (1, 2, 3)] + [(8, 4, 4), (4, 2, 7)]
     for (l, k, r) in encs:
         qs.append(Query("base/enc/len%d_k%d_r%d" % (l, k, r), R,
                         dict(harness=HB, units=[], hdefines=["H_ENC", "LEN=%d" % l, "KK=%d" % k, "ROWS=%d" % r],
-                             unwind=max(33, k * r + 1), witness=(l > 0), timeout=None if quick else 1200),
-                        core=(l, k, r) == (2, 2, 3), family="base/enc", weight=5 + 4 * l * k * r))
+                             unwind=max(33, k * r + 1, l + 2), witness=(l > 0), timeout=None if quick else 1200, flags=CADICAL),
+                        core=(l, k, r) in ((2, 2, 3), (4, 3, 3)), family="base/enc", weight=2 + l * k * r))
     info = dict(GLUE_INFO)
     info = {k: (list(v) if isinstance(v, list) else dict(v)) for k, v in info.items()}
     info["functions_encoded"] += ["gf_vect_dot_prod_base", "ec_encode_data_base", "ec_init_tables_base", "gf_vect_mul_init"]
-    info["bounds"]["base"] = "len 0..4, k 1..3, rows 1..3 concrete (quick: 4 shapes each); coefficients, data, old destination contents symbolic; " \
+    info["bounds"]["base"] = "len 0..4, k 1..3, rows 1..3 concrete (quick: 4-5 shapes each; thorough all 45 + (8,4,4), (4,2,7)); coefficients, data, old destination contents symbolic; " \
                              "every source/destination block is its own exact-size object"
     info["stubs"] += ["base/* queries except */real_leaf/*: gf_mul and gf_inv bodies of ec_base.c compute spec_gf_mul / spec inverse "
                       "(spec/ec_base_leaf.h); justified by C12 (gf_mul == spec_gf_mul for all 2^16 pairs). */real_leaf/* link the unmodified ec_base.c."]
     info["assumptions"] += ["C12 holds (lemma used by the leaf substitution)"]
-    info["outside"] += ["len > 4, k > 3, rows > 3 for the portable functions (XOR-miter cost grows ~5 s per product)"]
+    info["outside"] += ["len > 4 (8), k > 3 (4), rows > 3 (7) for the portable functions"]
     return qs, info
